@@ -1,8 +1,8 @@
 #!/bin/bash
 # run_all.sh <quick|thorough> [ids...]  — run every check, print one summary line each
 TIER="${1:-quick}"; shift
-IDS="$@"; [ -z "$IDS" ] && IDS=$(python3 -c "import json;print(' '.join(c['property_id'] for c in json.load(open('/verif/MANIFEST.json'))['checks']))")
-cd /verif
+cd "$(dirname "$0")"; IDS="$@"; [ -z "$IDS" ] && IDS=$(python3 -c "import json;print(' '.join(c['property_id'] for c in json.load(open('MANIFEST.json'))['checks']))")
+cd "$(dirname "$0")"
 for id in $IDS; do
   s=$(date +%s)
   out=$(./check $id $TIER 2>&1); rc=$?
